@@ -281,6 +281,22 @@ theorem reject_unclosed_bracket (mem : Str) (h : chAt mem (mem.length - 1) ≠ c
   · have : (chAt mem (mem.length - 1) != ch! ']') = true := by simpa using h
     simp [this]
 
+/-- **(f)** a memory expression with a second opening bracket (one of them is then never closed: `[[rbx]`) or with a closing bracket
+    before its end (`[rbx]]`) is rejected (fix 5a09eff) -/
+theorem reject_second_bracket (mem : Str) (h : (mem.filter (· == ch! '[')).length ≠ 1 ∨ mem.idxOf (ch! ']') ≠ mem.length - 1) :
+    getIndexReg mem = none := by
+  have hob : oneBracketPair mem = false := by
+    unfold oneBracketPair
+    rcases h with h | h <;> simp [h]
+  unfold getIndexReg
+  split
+  · rfl
+  · split
+    · rfl
+    · simp [hob]
+
+example : getIndexReg (str! "[[rbx]") = none ∧ getIndexReg (str! "[rbx]]") = none ∧ getIndexReg (str! "[rbx]") = some (c_SIB, []) := by decide
+
 /-- **(f)** a scale other than 1, 2, 4, 8 is rejected -/
 theorem reject_bad_scale (scale next : Ch) (h : scale ≠ ch! '1' ∧ scale ≠ ch! '2' ∧ scale ≠ ch! '4' ∧ scale ≠ ch! '8') :
     checkSibDisp scale next = none := by
